@@ -246,7 +246,7 @@ def replay(ctx, obj):
 
 
 CHECK = core.Check(
-    'C03', sc.CLUSTER, ['Props/C03.v', 'Props/C03H.v'], translate=sc.translate, correspond=correspond, oracle=oracle, replay=replay,
+    'C03', sc.CLUSTER, ['Props/C03.v', 'Props/C03H.v', 'Props/C03E.v'], translate=sc.translate, correspond=correspond, oracle=oracle, replay=replay,
     regressions=regressions, deps=('lib',),
     rule='recorded IkeSa.process_message calls of simulator histories (scripted exchanges + random walks) into which '
          'forgeries are injected; the oracle, after every step and for every IKE_SA that has keys, injects: cleartext '
@@ -254,7 +254,7 @@ CHECK = core.Check(
          'DELETE/NOTIFY payloads, bit flips / truncations / extension / rewritten Message ID of authentic datagrams, '
          'reflected own messages, messages of another IKE_SA re-addressed; non-trivial = unauthenticated message '
          'reaching an IKE_SA with keys; distinct by content',
-    trusted_base=sc.TRUSTED,
+    trusted_base=sc.TRUSTED + hdl.TRUSTED,
     assumptions=['"authentic" means: Message.parse took the SK branch and the integrity checksum matched (C07 states '
                  'what that implies); MAC strength itself is assumed, not proved'],
 )
